@@ -135,6 +135,15 @@ class Session:
                 continue
             a, b = np.asarray(cat.halos[rn]), np.asarray(ref.halos[rn])
             run.count('columns_compared')
+            # loading subsamples re-indexes the npstart/npout columns and nothing else: every other column also equals the load without subsamples
+            if sub and c not in INDEXCOLS and not (self.cleaned and c == 'N'):
+                ref0 = self.ref('none', False)
+                if ref0 is not None and rn in ref0.halos.colnames:
+                    b0 = np.asarray(ref0.halos[rn])
+                    run.count('columns_compared_with_no_subsample_load')
+                    if not catoracle.eq_nan(a, b0):
+                        bad0 = int(np.argwhere(~((a == b0) | ((a != a) & (b0 != b0))).reshape(len(a), -1).all(axis=1))[0][0]) if a.shape == b0.shape else -1
+                        run.violation('column-depends-on-subsample-selection', dict(column=c, row=bad0, **desc))
             if has_hidden_dependency(c, req):
                 hidden = True
             if not catoracle.eq_nan(a, b):
